@@ -10,8 +10,8 @@ using cm::Doc;
 using cm::Loop;
 using cm::Value;
 
-enum { A_NEXT_NEW, A_NEXT_REUSE, A_NEXT_NULL, A_UPDATE, A_UPDATE_FOREIGN, A_UPDATE_EMPTY, A_REMOVE, N_ACT };
-static const char *ACT[] = {"next(new)", "next(reuse)", "next(NULL)", "update", "update(foreign)", "update(empty)", "remove"};
+enum { A_NEXT_NEW, A_NEXT_REUSE, A_NEXT_NULL, A_UPDATE, A_UPDATE_FOREIGN, A_UPDATE_EMPTY, A_REMOVE, A_OTHER_FAIL, N_ACT };
+static const char *ACT[] = {"next(new)", "next(reuse)", "next(NULL)", "update", "update(foreign)", "update(empty)", "remove", "failing-call-elsewhere"};
 struct Step { int act; long a, b; std::string v1, v2; };
 
 static std::string ser_steps(const std::vector<Step> &st) {
@@ -53,8 +53,8 @@ static std::string run_case(const CaseFile &c) {
     int current = -1;        // index of the packet most recently delivered, -1 none, -2 just removed
     bool finished = false, unknown_current = false;
     size_t consumed = 0;     // packets delivered so far (some, taken through a NULL packet pointer, are not identified)
-    int n_ok_edit = 0, n_next = 0, n_misuse = 0;
-    int rc;
+    int n_ok_edit = 0, n_next = 0, n_misuse = 0, n_other_fail = 0;
+    int rc, want = 0;
     {
     rc = cm::build(d, &cif);
     if (rc != CIF_OK) { count_excluded("unbuildable"); label("unbuildable"); goto done; }
@@ -80,7 +80,11 @@ static std::string run_case(const CaseFile &c) {
     if (rc != CIF_OK) FAILMSG(std::string("get_packets returned ") + cm::code_name(rc));
     if (scalar) label("scalar-loop");
     // a reusable packet that holds extra, foreign and stale items
-    { UChar *xn[] = {(UChar *) u"_zz_extra", (UChar *) ml.names[0].c_str(), nullptr}; if (cif_packet_create(&reuse, xn) != CIF_OK) FAILMSG("packet_create"); }
+    { UChar *xn[] = {(UChar *) u"_zz_extra", (UChar *) ml.names[0].c_str(), nullptr}; if (cif_packet_create(&reuse, xn) != CIF_OK) FAILMSG("packet_create");
+      // the extra and the stale item own heap memory (text, digit strings, list members) that the iterator has to release when it drops / overwrites them
+      cif_value_tp *xv = nullptr; if (cm::to_cif(pv("L[C1\"extra text\",N0\"1.50(3)\"]"), &xv) != CIF_OK) FAILMSG("extra value");
+      if (cif_packet_set_item(reuse, u"_zz_extra", xv) != CIF_OK || cif_packet_set_item(reuse, (const UChar *) ml.names[0].c_str(), xv) != CIF_OK) { cif_value_free(xv); FAILMSG("packet_set_item"); }
+      cif_value_free(xv); }
     for (size_t si = 0; si < steps.size(); si++) {
         const Step &s = steps[si];
         std::string at = "step#" + std::to_string(si + 1) + " " + ACT[s.act % N_ACT] + ": ";
@@ -157,6 +161,30 @@ static std::string run_case(const CaseFile &c) {
             for (size_t j = 0; j < cols.size(); j++) cur[current][cols[j]] = vals[j];
             n_ok_edit++;
             break; }
+        case A_OTHER_FAIL: {
+            // while the iterator is open: a call on ANOTHER part of the same CIF that must fail.  It must fail with its documented code, leave
+            // the CIF as it was, and neither disturb the open iterator nor the changes pending in it (checked by the rest of the script
+            // and by the whole-block comparison after close / abort).
+            bool other = d.blocks[0].loops.size() > 1;
+            int kind = (int) (s.a % (other ? 6 : 3));
+            cif_loop_tp *oh = nullptr;
+            if (kind >= 3 && cif_container_get_item_loop(blk, u"_other1", &oh) != CIF_OK) FAILMSG(at + "cannot get a handle on the other loop");
+            int want2 = 0; const char *what = "";
+            if (kind == 0) { cif_container_tp *nb = nullptr; rc = cif_create_block(cif, (const UChar *) d.blocks[0].code.c_str(), &nb); if (nb) cif_container_free(nb); want = CIF_DUP_BLOCKCODE; what = "cif_create_block(existing code)"; }
+            else if (kind == 1) { rc = cif_container_set_value(blk, u"no_underscore", nullptr); want = CIF_INVALID_ITEMNAME; what = "cif_container_set_value(invalid name)"; }
+            else if (kind == 2) { UChar *nn[] = {(UChar *) u"_brand_new", (UChar *) ml.names[(size_t) s.b % ml.names.size()].c_str(), nullptr}; cif_loop_tp *nl = nullptr; rc = cif_container_create_loop(blk, u"newcat", nn, &nl); if (nl) cif_loop_free(nl); want = CIF_DUP_ITEMNAME; what = "cif_container_create_loop(a name already in the container, second position)"; }
+            else if (kind == 3) { rc = cif_loop_add_item(oh, u"_other2", nullptr); want = CIF_DUP_ITEMNAME; what = "cif_loop_add_item(existing name)"; }
+            else if (kind == 4) { cif_packet_tp *fp = nullptr; UChar *fn[] = {(UChar *) u"_other1", (UChar *) u"_nowhere", nullptr}; if (cif_packet_create(&fp, fn) != CIF_OK) { cif_loop_free(oh); FAILMSG(at + "packet_create"); } rc = cif_loop_add_packet(oh, fp); cif_packet_free(fp); want = CIF_WRONG_LOOP; what = "cif_loop_add_packet(packet naming a foreign item last)"; }
+            else { cif_pktitr_tp *it2 = nullptr; rc = cif_loop_get_packets(oh, &it2); if (rc == CIF_OK) { label("second-iterator-granted"); (void) cif_pktitr_close(it2); } want = rc == CIF_OK ? CIF_OK : CIF_ERROR; want2 = CIF_MISUSE; what = "cif_loop_get_packets(another loop)"; }
+            if (oh) cif_loop_free(oh);
+            label(std::string("elsewhere:") + what);
+            // functions that open a top-level transaction of their own cannot run inside the iterator's: they fail with the generic CIF_ERROR
+            // before looking at their arguments -- accepted, what matters is that the call fails and leaves everything as it was
+            if (rc == CIF_OK && want != CIF_OK) FAILMSG(at + what + " succeeded, expected " + cm::code_name(want));
+            if (rc != want && rc != CIF_ERROR && !(want2 && rc == want2)) FAILMSG(at + what + " returned " + cm::code_name(rc) + ", expected " + cm::code_name(want) + " (or CIF_ERROR)");
+            if (rc == CIF_ERROR && want != CIF_ERROR) label("elsewhere:refused-with-CIF_ERROR");
+            if (rc != CIF_OK) n_other_fail++;
+            break; }
         case A_REMOVE: {
             if (unknown_current) { label("skipped:unknown-current"); break; }
             rc = cif_pktitr_remove_packet(it);
@@ -187,6 +215,16 @@ static std::string run_case(const CaseFile &c) {
         Doc da, db; da.blocks.push_back(ca); db.blocks.push_back(cb);
         if (cm::ser(da, cm::EXACT, true) != cm::ser(db, cm::EXACT, true))
             FAILMSG(std::string("after ") + (do_abort ? "abort the loop differs from its content at iterator creation" : "close the loop differs from the edited content") + "\n--- expected\n" + cm::ser(da, cm::EXACT, true) + "--- got\n" + cm::ser(db, cm::EXACT, true));
+        // the rest of the block (the other loop, no stray items or loops) is what it was
+        {
+            Doc whole; int drc = cm::dump(cif, whole);
+            if (drc != CIF_OK) FAILMSG(std::string("after the iteration the CIF cannot be dumped: ") + cm::code_name(drc));
+            Doc model = d; model.blocks[0].loops[0].rows = want;
+            if (want.empty() && scalar) {}   // a scalar loop without packets may or may not be listed: compared above already
+            else if (cm::ser(model, cm::EXACT, true) != cm::ser(whole, cm::EXACT, true))
+                FAILMSG(std::string("after ") + (do_abort ? "abort" : "close") + " the CIF as a whole differs from the model (a call that failed while the iterator was open left something behind?)\n--- expected\n" + cm::ser(model, cm::EXACT, true) + "--- got\n" + cm::ser(whole, cm::EXACT, true));
+        }
+        if (n_other_fail && n_ok_edit) label("failing-call-elsewhere-with-pending-edits");
         if (do_abort && n_ok_edit) label("abort-after-edit");
         if (!do_abort && want.empty()) label("close-after-remove-all");
         cur = want;
@@ -214,7 +252,7 @@ followup:
         if (it2) { size_t n = 0; int r2; while ((r2 = cif_pktitr_next_packet(it2, nullptr)) == CIF_OK) n++; (void) cif_pktitr_close(it2); if (r2 != CIF_FINISHED || n != cur.size()) FAILMSG("a second iteration delivered " + std::to_string(n) + " packets, the loop holds " + std::to_string(cur.size())); }
     }
     if (!finished && !cur.empty() && n_next == 0) label("closed-without-next");
-    if ((n_ok_edit >= 1 && n_next >= 2) || n_misuse >= 1) nontrivial(fnv(c.get("doc") + c.get("script") + (do_abort ? "A" : "C")));
+    if ((n_ok_edit >= 1 && n_next >= 2) || n_misuse >= 1 || (n_other_fail && n_ok_edit)) nontrivial(fnv(c.get("doc") + c.get("script") + (do_abort ? "A" : "C")));
     }
 done:
     if (it) (void) cif_pktitr_abort(it);
@@ -242,13 +280,23 @@ int main(int argc, char **argv) {
             bool dups = *g::chance(15);
             for (int r = 0; r < nrows; r++) { std::vector<Value> row; for (int i = 0; i < ncols; i++) row.push_back(dups ? Value::chr(u"same") : *val); l.rows.push_back(row); }
             b.loops.push_back(l);
-            if (*g::chance(60)) { Loop o; o.has_cat = false; o.names = {u"_other1", u"_other2"}; o.rows.push_back({Value::chr(u"o"), Value::unk()}); b.loops.push_back(o); }
+            bool other = *g::chance(60);
+            if (other) { Loop o; o.has_cat = false; o.names = {u"_other1", u"_other2"}; int orows = *g::range(1, 3); for (int r = 0; r < orows; r++) o.rows.push_back({Value::chr(u16("o" + std::to_string(r))), r ? Value::chr(u"p") : Value::unk()}); b.loops.push_back(o); }
             d.blocks.push_back(b);
+            // a second data block whose loops reuse item names of the first block in loops with the same per-container numbering: an
+            // edit made through the iterator must not reach into it, nor into the first block's other loop by way of it
+            if (*g::chance(50)) {
+                Container b2; b2.code = u"two";
+                Loop x; x.has_cat = false; x.names = {other ? ustr(u"_other1") : ustr(u"_c0"), u"_x2"}; for (int r = 0; r < 3; r++) x.rows.push_back({Value::chr(u16("t" + std::to_string(r))), Value::na()});
+                b2.loops.push_back(x);
+                if (*g::chance(50)) { Loop y; y.has_cat = false; y.names = {u"_c0", u"_y2"}; for (int r = 0; r < 2; r++) y.rows.push_back({Value::chr(u16("u" + std::to_string(r))), Value::unk()}); if (x.names[0] != u"_c0") b2.loops.push_back(y); }
+                d.blocks.push_back(b2);
+            }
             int nsteps = *g::sized(0, 25);
             std::vector<Step> steps;
             for (int i = 0; i < nsteps; i++) {
                 Step s{};
-                s.act = *rc::gen::weightedElement<int>({{8, A_NEXT_NEW}, {4, A_NEXT_REUSE}, {1, A_NEXT_NULL}, {5, A_UPDATE}, {2, A_UPDATE_FOREIGN}, {1, A_UPDATE_EMPTY}, {4, A_REMOVE}});
+                s.act = *rc::gen::weightedElement<int>({{8, A_NEXT_NEW}, {4, A_NEXT_REUSE}, {1, A_NEXT_NULL}, {5, A_UPDATE}, {2, A_UPDATE_FOREIGN}, {1, A_UPDATE_EMPTY}, {4, A_REMOVE}, {3, A_OTHER_FAIL}});
                 s.a = *g::range(0, 99); s.b = *g::range(0, 99); s.v1 = cm::ser(*val); s.v2 = cm::ser(*val);
                 steps.push_back(s);
             }
